@@ -333,6 +333,10 @@ func GenRequest(t *rapid.T, doc M, hostile bool) Req {
 				hv = rapid.SampledFrom([]string{"", ",", ",,", "a=b=c", "=", "é", "1,2,x"}).Draw(t, "hh")
 			}
 			r.Header[http.CanonicalHeaderKey(name)] = append(r.Header[http.CanonicalHeaderKey(name)], hv)
+			if chance(12, "hostnovalues") {
+				// a key without values (h["X"] = nil is the net/http idiom to suppress a header), or several lines
+				r.Header[http.CanonicalHeaderKey(name)] = rapid.SampledFrom([][]string{nil, {}, {hv, hv}, {"", hv}}).Draw(t, "hlines")
+			}
 		case "cookie":
 			ps, _ := styleser.Cookie(explode, name, v)
 			for _, kv := range ps {
@@ -539,6 +543,9 @@ func GenResponse(t *rapid.T, doc M, reqMethod, template string, hostile bool) Re
 			explode, _ := hd["explode"].(bool)
 			hv, _ := styleser.Header(explode, v)
 			resp.Header[http.CanonicalHeaderKey(hn)] = []string{hv}
+			if hostile && rapid.IntRange(0, 9).Draw(t, "rhnovalues") == 0 {
+				resp.Header[http.CanonicalHeaderKey(hn)] = rapid.SampledFrom([][]string{nil, {}, {hv, hv}, {"", hv}}).Draw(t, "rhlines")
+			}
 		}
 		content, _ := declared["content"].(M)
 		cts := jv.Keys(content)
